@@ -794,7 +794,7 @@ theorem handleClosed_extra (e : Engine) (hinv : Inv e) (hx : Extra false [] e.vi
       x4 := fun id hc => by rw [hcur] at hc; cases hc
       x5 := ⟨hnd14, fun id _ => by rw [hhq]; exact List.not_mem_nil⟩
       x6 := fun id hc => by rw [hcur] at hc; cases hc
-      x7 := fun id hi => by rw [hhq] at hi; cases hi
+      x7 := by rw [hhq]; exact List.nodup_nil
       x8 := fun id o' ho' hp => by
         obtain ⟨o, ho, p1, p2, _⟩ := lfin.2 id o' ho'
         rw [p2]; exact hx.x8 id o ho (by rw [← p1]; exact hp)
@@ -818,7 +818,7 @@ theorem new_extra (cfg : Config) : Extra false [] (Engine.new cfg).view :=
     x4 := fun id hc => by cases hc
     x5 := ⟨List.nodup_nil, fun id hi => by cases hi⟩
     x6 := fun id hc => by cases hc
-    x7 := fun id hi => by cases hi
+    x7 := List.nodup_nil
     x8 := fun id o ho => by cases ho
     x9 := List.nodup_nil
     cur := fun hs => by rcases hs with a | a <;> cases a
